@@ -35,11 +35,18 @@ def show_bytes(p):
 CMPS = {"eq": "==", "neq": "!=", "lt": "<", "gt": ">", "le": "<=", "ge": ">="}
 
 
+MAXINT = 9223372036854775807
+EXTREME = [0, 1, 2147483646, 2147483647, 2147483648, 4294967295, 4294967296, MAXINT - 1, MAXINT, MAXINT, MAXINT]
+
+
 def gen_expr(rng, depth):
     r = rng.random()
     if depth > 0 and r < 0.55:
         return (rng.choice(["and", "or"]), gen_expr(rng, depth - 1), gen_expr(rng, depth - 1))
     r = rng.random()
+    if rng.random() < 0.12:
+        # literals at the edges of Go's int (64 bit here) and of int32; the expression is read over unbounded integers
+        return (rng.choice(["att", "code"]), rng.choice(list(CMPS)), rng.choice(EXTREME))
     if r < 0.4:
         return ("att", rng.choice(list(CMPS)), rng.choice([0, 1, 2, 2, 3, 3, 4, 5, 9, 10, 11, 12, 30]))
     if r < 0.75:
@@ -109,7 +116,10 @@ def parse_polish(s):
         if t == "neterr":
             return (t,), i + 1
         if t in ("att", "code"):
-            return (t, toks[i + 1], int(toks[i + 2])), i + 3
+            v = int(toks[i + 2])
+            if toks[i + 1] not in CMPS or not 0 <= v <= MAXINT or not toks[i + 2].isdigit():
+                raise ValueError("literal")  # strconv.Atoi range; a leading '-' is a unary operator the grammar lacks
+            return (t, toks[i + 1], v), i + 3
         if t in ("meq", "mneq"):
             return (t, toks[i + 1]), i + 2
         raise ValueError(t)
@@ -119,7 +129,9 @@ def parse_polish(s):
     return e
 
 
-INVALID = [("!IsNetworkError()", "bad"), ('RequestMethod()<"A"', "bad"), ("Attempts()==-1", "bad"), ("2<Attempts()", "bad"),
+INVALID = [("Attempts()<=9223372036854775808", "att,le,9223372036854775808"), ("ResponseCode()>=18446744073709551616", "code,ge,18446744073709551616"),
+           ("Attempts()>=-1", "att,ge,-1"), ("Attempts()>-9223372036854775808", "att,gt,-9223372036854775808"),
+           ("!IsNetworkError()", "bad"), ('RequestMethod()<"A"', "bad"), ("Attempts()==-1", "bad"), ("2<Attempts()", "bad"),
            ("Foo()", "bad"), ("Attempts()==2.5", "bad"), ("Attempts()", "bad")]
 
 
@@ -499,6 +511,11 @@ def gen_cfg(rng, focus, tier):
         t += ["retry=" + go_syntax(expr, rng), "rx=" + polish(expr)]
     if rng.random() < 0.15:
         t.append("hj=0")
+    r = rng.random()
+    if r < 0.12:
+        t.append("verbose=1")
+    elif r < 0.2:
+        t.append("up=" + rng.choice(["stream-verbose", "rr-verbose"]))
     return "cfg " + " ".join(t), dict(maxreq=maxreq, memreq=memreq, maxresp=maxresp, memresp=memresp, expr=expr), True
 
 
@@ -599,6 +616,8 @@ def gen_scenarios(rng, tier, focus):
             toks = ["req", method, url, rng.choice(["cl", "ch"]), str(ln), str(rng.randint(0, 99999))]
             if hs:
                 toks.append("h=" + ";".join(hs))
+            if method in ("POST", "PUT", "PATCH") and rng.random() < 0.3:
+                toks.append("ct=" + rng.choice(["form", "form", "form", "multipart"]))
             natt = rng.choice([1, 2, 3, 4, 12]) if c["expr"] is not None else rng.choice([1, 1, 2])
             bias = rng.choice([0.0, 0.3, 0.6]) if c["expr"] is not None else 0.0
             for _ in range(natt):
